@@ -28,6 +28,7 @@ from antismash.common.hmm_rule_parser import cluster_prediction  # noqa: E402
 from mc.engine.choice import explore  # noqa: E402
 from mc.engine.core import Result  # noqa: E402
 from mc.props import c03, c07  # noqa: E402
+from mc.universe import modcases  # noqa: E402
 from mc.universe import worlds as W  # noqa: E402
 
 ID = "C17"
@@ -76,6 +77,9 @@ def scenarios():
     out.append({"kind": "presub", "subs": [[0, 2], [1, 3]], "hits": {"g0": {"a": 7}, "g1": {"a": 7}, "g2": {"a": 7}, "g3": {"a": 7}}})
     # the real hmm_detection.run_on_record (rule names of the shipped rule files) with the HMMer search replaced
     out.append({"kind": "hmm-run", "strictness": "relaxed"})
+    # saved results of analysis modules, filled from hand-made hit tables (their external tools are not available here)
+    for name in sorted(modcases.CASES):
+        out.append({"kind": "module", "name": name})
     out.append({"kind": "refine", "hits": [["A", 0, 30, 1], ["B", 0, 60, 1], ["A", 0, 60, 1], ["B", 0, 30, 1]]})
     out.append({"kind": "refine", "hits": [["A", 0, 30, 2], ["A", 25, 60, 2], ["B", 10, 50, 2], ["regulatorR", 0, 10, 2]]})
     return out
@@ -117,6 +121,8 @@ def _outputs(rec, extra=""):
 
 def run_scenario(sc):
     """-> bytes-like canonical output of the whole chain"""
+    if sc["kind"] == "module":
+        return modcases.CASES[sc["name"]]()
     if sc["kind"] == "protos":
         from mc.universe import protos as P  # pylint: disable=import-outside-toplevel
         rec, _ = P.make_slotted_record(8, sc["circ"], P.default_core_functions(8))
@@ -220,7 +226,7 @@ def explore_scenario(sc, bound, max_runs, stats=None):
                 key = digest(outcome)
                 if key not in seen_outcomes:
                     seen_outcomes[key] = schedule
-                    fails.append((f"output-depends-on-set-order:{_first_difference(default, outcome)}",
+                    fails.append((f"output-depends-on-set-order:{_locus(default, outcome, sc)}",
                                   f"schedule {[(i, c) for i, c in enumerate(schedule) if c]}"))
     except Exception as err:  # pylint: disable=broad-except
         fails.append(("scenario-raised", f"{type(err).__name__}: {str(err)[:150]}"))
@@ -243,6 +249,10 @@ def _first_difference(a, b):
                     return f"{name}:{token}" if token else name
             return name
     return "refine" if "=====" not in a else "length"
+
+
+def _locus(default, outcome, sc):
+    return "saved-results" if sc["kind"] == "module" else _first_difference(default, outcome)
 
 
 CHILD = r'''
@@ -288,7 +298,7 @@ def run_shard(shard):
     if shard[0] == "scenario":
         _, index, tier = shard
         sc = scenarios()[index]
-        small = sc["kind"] == "refine" or len(sc.get("starts", [])) == 1
+        small = sc["kind"] in ("refine", "module") or len(sc.get("starts", [])) == 1
         if tier == "quick":
             bound, cap = (2, None) if (small and sc.get("family") in (None, "twins", "superiors")) else (1, None)
         else:
